@@ -44,7 +44,7 @@ def abstract(df):
 
 
 def enc_bounds(v):
-    v = float(v)
+    v = math.nan if v is None else float(v)          # (a JSON null stands for an undefined extent)
     if math.isnan(v):
         return geom.NAN
     assert v == int(v), v
